@@ -274,6 +274,23 @@ func flight4StoreSession(state *dtlsstate.State12, cfg *dtlsconfig.HandshakeConf
 	return Flight6, nil, nil
 }
 
+// ensureLocalKeypair generates the key pair of the key exchange for the flight
+// that carries it, not while the first ClientHello is parsed: with hello
+// verification enabled the peer has returned the cookie by now, so a spoofed
+// source address cannot make the server spend a key generation.
+func ensureLocalKeypair(state *dtlsstate.State12) (*alert.Alert, error) {
+	if state.LocalKeypair != nil {
+		return nil, nil //nolint:nilnil
+	}
+	keypair, err := elliptic.GenerateKeypair(state.NamedCurve)
+	if err != nil {
+		return &alert.Alert{Level: alert.Fatal, Description: alert.IllegalParameter}, err
+	}
+	state.LocalKeypair = keypair
+
+	return nil, nil //nolint:nilnil
+}
+
 //nolint:gocognit,cyclop,maintidx
 func flight4Generate(
 	_ dtlsflight.Conn,
@@ -409,6 +426,10 @@ func flight4Generate(
 			return nil, &alert.Alert{Level: alert.Fatal, Description: alert.InsufficientSecurity}, err
 		}
 
+		if dtlsAlert, err := ensureLocalKeypair(state); err != nil {
+			return nil, dtlsAlert, err
+		}
+
 		signature, err := dtlscrypto.GenerateKeySignature(
 			clientRandom[:],
 			serverRandom[:],
@@ -490,6 +511,9 @@ func flight4Generate(
 			IdentityHint: cfg.LocalPSKIdentityHint,
 		}
 		if state.CipherSuite.KeyExchangeAlgorithm().Has(ciphersuite.KeyExchangeAlgorithmEcdhe) {
+			if dtlsAlert, err := ensureLocalKeypair(state); err != nil {
+				return nil, dtlsAlert, err
+			}
 			srvExchange.EllipticCurveType = elliptic.CurveTypeNamedCurve
 			srvExchange.NamedCurve = state.NamedCurve
 			srvExchange.PublicKey = state.LocalKeypair.PublicKey
